@@ -566,6 +566,17 @@ def k7(ctx, res):
                     if conds == [f"{k} != '_x_autotitle'"]:
                         return "dict-recursive-minus-autotitle"
                     return "dict-recursive-filter:" + " and ".join(conds)
+        if isinstance(e, ast.Name):
+            for b in builders(vb):
+                if b.name == e.id and b.kind == "dict" and norm(b.iter) == f"{v}.items()" and isinstance(b.target, ast.Tuple):
+                    k, x = norm(b.target.elts[0]), norm(b.target.elts[1])
+                    if b.key is not None and norm(b.key) == k and norm(b.elt) == f"_parse_literal({x})":
+                        gt = b.guard_texts()
+                        if gt == [f"{k} != '_x_autotitle'"] or gt == [f"not {k} == '_x_autotitle'"]:
+                            return "dict-recursive-minus-autotitle"
+                        return "dict-recursive-filter:" + " and ".join(gt)
+                if b.name == e.id and b.kind == "list" and norm(b.iter) == v and norm(b.elt) == f"_parse_literal({norm(b.target)})" and not b.guards:
+                    return "list-recursive"
         return "other:" + norm(e)[:60]
     table, opaque = decision_table(vb, ["CONTAINER", "LIST", "DICT"], rec, classify)
     good = True
